@@ -469,7 +469,7 @@ func c10Run(c *core.Ctx) bool {
 		"evaluations":                     res.Evaluations + res.Counters["continuations"],
 		"faults_injected":                 res.Evaluations,
 		"distinct_nontrivial":             distinct,
-		"rule":                            "for reachable crash-free project states (breadth-first to depth 3/4 on 5/11 shapes, a seeded selection preferring states with recorded digests) and the runs {all tasks, all tasks --force(, last task)}: one recorded pass lists the hook points hit (run.*, cache.*, hash.*); the run is then repeated by the real binary with SIGKILL at every point index, with `kill -9 $$` in every command position, and with byte-prefixes of every cache content it writes installed as cache.json (quick: lengths 0, 1, every 8th, len-1; thorough: all); each damaged state is followed by continuations {run; run run; edit run; edit run revert run; edit revert run; third-content failing-run edit/revert run} per file, judged by the cache model (C01 clause). evaluations = faults injected + continuations executed; non-trivial = distinct (scenario, continuation) pairs executed after a fault that took effect",
+		"rule":                            "for reachable crash-free project states (breadth-first to depth 3/4 on 5/12 shapes, a seeded selection preferring states with recorded digests) and the runs {all tasks, all tasks --force(, last task)}: one recorded pass lists the hook points hit (run.*, cache.*, hash.*); the run is then repeated by the real binary with SIGKILL at every point index, with `kill -9 $$` in every command position, and with byte-prefixes of every cache content it writes installed as cache.json (quick: lengths 0, 1, every 8th, len-1; thorough: all); each damaged state is followed by continuations {run; run run; edit run; edit run revert run; edit revert run; third-content failing-run edit/revert run} per file, judged by the cache model (C01 clause). evaluations = faults injected + continuations executed; non-trivial = distinct (scenario, continuation) pairs executed after a fault that took effect",
 		"samples":                         res.Samples,
 		"counters":                        res.Counters,
 		"crash_points_reached":            res.SetValues("crash_points"),
